@@ -8,10 +8,6 @@ listed finding is still printed as KNOWN-FINDING.  Keys are (rule id, key prefix
 
 SHAPE_KEYS: set[tuple[str, str]] = {
     ("C01.R3", "store"),
-    ("C02.R2", "operands-not-mapped"),
-    ("C02.R2", "remap-value"),
-    ("C02.R2", "results-regions"),
-    ("C02.R2", "successors-not-mapped"),
     ("C06.R3b", "unverified-digits"),
     ("C06.R3", "g-form-unguarded"),
     ("C06.R3", "lossless-check-missing"),
